@@ -11,6 +11,8 @@ cp spec/*.tla "$tmp"/
 import sys; sys.path.insert(0,'.')
 from harness import worlds as W
 open('$tmp/Worlds.tla','w').write(W.worlds_module(W.catalogue('quick')[:2]))
+from harness import props_c07
+open('$tmp/InitWorlds.tla','w').write(props_c07.worlds_module(False))
 "
 for f in "$tmp"/*.tla; do
   out=$(cd "$tmp" && tla-sany "$(basename "$f")" 2>&1) || { echo "$out"; echo "SANY failed on $f"; exit 1; }
